@@ -496,6 +496,13 @@ class TaskDispatcher(object):
                     if not nt.loader:
                         nt.loader = DelayedLoaded
                     self.tasks[nt.name] = nt
+                # wildcard task_dep of the created tasks: TaskControl
+                # expanded only the patterns known at start-up
+                for nt in new_tasks:
+                    for pattern in nt.wild_dep:
+                        nt.task_dep.extend(
+                            name for name in list(self.tasks)
+                            if fnmatch.fnmatch(name, pattern))
             # check itself for implicit dep (used by regex_target)
             TaskControl.add_implicit_task_dep(
                 self.targets, this_task, this_task.file_dep)
